@@ -185,7 +185,7 @@ class CSVRecordIterator extends rbql.RBQLInputIterator {
             // 2. Scanning buffer chunks for non-continuation utf-8 bytes from the end of the buffer:
             //    src_buffer -> (buffer_before, buffer_after) where buffer_after is very small(a couple of bytes) and buffer_before is large and ends with a non-continuation bytes
             // 3. Internal buffer to store small tail part from the previous buffer
-            this.decoder = new util.TextDecoder(encoding, {fatal: true, stream: true});
+            this.decoder = new util.TextDecoder(encoding, {fatal: true, stream: true, ignoreBOM: true}); // ignoreBOM: keep the BOM in the decoded text, remove_utf8_bom() removes it and registers the warning
         }
 
         this.input_exhausted = false;
